@@ -8,7 +8,7 @@ import z3
 
 from .core import (Sym, OutsideSubset, EngineError, Infeasible, PyRaise, ExcVal, py_raise, binop, unop, compare,
                    wrap, to_z3, And, Or, Not, Eq, If)
-from .values import (Obj, Extern, GuardedList, SymSet, SymMap, MapBox, SymArr, ModelValue)
+from .values import (Obj, Extern, GuardedList, SymSet, SymMap, MapBox, SymArr, ModelValue, Uninterp, FlexDict, unflex)
 from . import strings
 
 LOG_CALL = re.compile(r'(^|\.)(log|logger|flowirLogger|graphLogger|moduleLogger|rootLogger|dsl_log|logging)'
@@ -242,7 +242,7 @@ class Interp:
 
     def call_value(self, f, args, kwargs, name=None):
         c = self.ctx
-        if isinstance(f, Extern):
+        if isinstance(f, (Extern, Uninterp)):
             return f(*args, **kwargs)
         if isinstance(f, Closure):
             return self.call_closure(f, list(args), dict(kwargs))
@@ -747,7 +747,7 @@ class Interp:
         return out
 
     def ex_Dict(self, e, env):
-        d = {}
+        d = FlexDict()
         for k, v in zip(e.keys, e.values):
             if k is None:
                 other = self.eval(v, env)
@@ -757,7 +757,11 @@ class Interp:
                 continue
             kk = self.eval(k, env)
             if isinstance(kk, Sym):
-                raise OutsideSubset("dict literal with a symbolic key")
+                if d or len(e.keys) != 1:
+                    raise OutsideSubset("dict literal mixing symbolic and concrete keys")
+                vv = self.eval(v, env)
+                m = SymMap.empty(kk.e.sort(), to_z3(vv).sort())
+                return MapBox(m.store(kk, vv))
             d[kk] = self.eval(v, env)
         return d
 
@@ -768,6 +772,9 @@ class Interp:
             v = self.eval(x, env)
             if i == len(e.values) - 1:
                 return v
+            if isinstance(v, MapBox) and not isand and i == len(e.values) - 2 and \
+                    isinstance(e.values[-1], ast.Dict) and not e.values[-1].keys:
+                return v        # `m or {}` with a symbolic map: an empty m is itself an empty dict
             t = self.decide(v, x)
             if isand and not t:
                 return v
@@ -911,7 +918,14 @@ class Interp:
         return set(out)
 
     def ex_DictComp(self, e, env):
-        out = {}
+        if len(e.generators) == 1 and isinstance(e.generators[0].target, ast.Name):
+            src = unflex(self.eval(e.generators[0].iter, env))
+            if isinstance(src, MapBox):
+                return self.map_comprehension(e, env, src)
+            pre = src
+        else:
+            pre = None
+        out = FlexDict()
 
         def emit(cenv):
             k = self.eval(e.key, cenv)
@@ -920,6 +934,32 @@ class Interp:
             out[k] = self.eval(e.value, cenv)
         self._comp(e, env, emit)
         return out
+
+    def map_comprehension(self, e, env, src):
+        """{K(k): V(k) for k in <symbolic map> if C(k)}  with K the identity (up to str()):
+        evaluated once for a fresh key under the assumption k in dom; no forks allowed."""
+        c = self.ctx
+        g = e.generators[0]
+        m = src.m
+        k = z3.FreshConst(m.ksort, 'key')
+        cenv = Env(parent=env, globs=env.globs)
+        cenv.vars[g.target.id] = Sym(k)
+        c.push_scope(z3.Select(m.dom, k))
+        try:
+            cond = True
+            for test in g.ifs:
+                t = self.truth(self.eval(test, cenv))
+                cond = And(cond, t) if not (isinstance(cond, bool) and isinstance(t, bool)) else (cond and t)
+            kk = self.eval(e.key, cenv)
+            if not (isinstance(kk, Sym) and z3.eq(z3.simplify(kk.e), k)):
+                raise OutsideSubset("map comprehension whose key expression is not the iteration key")
+            vv = self.eval(e.value, cenv)
+        finally:
+            c.pop_scope()
+        ve = to_z3(vv)
+        dom = z3.Lambda([k], z3.And(z3.Select(m.dom, k), to_z3(cond)))
+        val = z3.Lambda([k], ve)
+        return MapBox(SymMap(dom, val, m.ksort, ve.sort()))
 
     def ex_Starred(self, e, env):
         raise OutsideSubset("starred expression")
